@@ -12,6 +12,15 @@ BASE_NOTE = (
 )
 
 CLAIMED = {
+    "C01": dict(
+        text="Two labelled transition systems with ghost absolute frame indices (wire carries 3-bit numbers only): host→NCP with the host's window 1, NCP→host with any NCP window W ≤ 3; FIFO channels with drop/duplication anywhere, corruption of the delivered frame (discarded, NAK), stalls and "
+        "retransmission at any time, spontaneous ack emission (piggy-backed acks), senders that stop. Inductive invariants (channel tags sorted; every data frame within one window of the receiver's expectation; every ack within [base, r]) proved for every reachable state: deliveries = frames 0..r-1 exactly once in order, "
+        "acknowledged ⇒ delivered exactly once, any frame at most once. Bridging lemmas tie the host's residue tests in the C04/C05 models (frmNum = rx_seq; (ackNum−1) mod 8 = outstanding frmNum with generated TX_K) to the abstract steps; cancellation changes no protocol field. "
+        "Tie: C04/C05 correspondences for the host halves + end-to-end runs of the real AshProtocol against an independent specification NCP simulator over fault-injecting channels on a virtual-time loop (all fault assignments to the first 5 (7 thorough) wire frames × windows 1..3, random long runs with cancellations and timeouts); oracle = exactly-once in-order on both sides, success ⇒ delivered once.",
+        ref="6 C01",
+        technique="Lean 4 proof (inductive invariant with ghost indices over all fault/schedule sequences, both directions, W ≤ 3) + end-to-end differential vs independent NCP simulator",
+        note="The NCP end is my specification (harness/ncpsim.py, BV.Link); resets in mid-stream, XON/XOFF flow control and CRC-passing corruption are outside this property's model (C11, C02, C03). ",
+    ),
     "C02": dict(
         text="Refinement theorem: the buffer-scanning loop of data_received (discarding mode, first non-escape reserved byte, FLAG/CANCEL/SUBSTITUTE/XON/XOFF branches, fuel = buffer length) equals a per-byte reference automaton for every "
         "accumulated prefix and every stream; hence for every stream whose unterminated remainders fit MAX_BUFFER_SIZE and every split into reads the events (payloads up, reset notifications, ACK/NAK bytes) equal those of the "
